@@ -202,3 +202,54 @@ def gen_names_big(rng, n):
         s, _ = b.labels([small_label(rng)], ptr(tg))
         out.append("nb%d name %s %d" % (i, hx(b.b), s))
     return out
+
+
+# ------------------------------------------------------------------------------- name strings
+def gen_text(rng):
+    """a name string from a grammar hitting every validity boundary; returns (bytes, tag)"""
+    k = rng.random()
+    if k < 0.30:
+        ls = [small_label(rng) if rng.random() < 0.6 else rand_label(rng) for _ in range(rng.choice([1, 1, 2, 3, 4]))]
+        s = b".".join(ls)
+        tag = "valid"
+    elif k < 0.45:
+        # total lengths around the limit: text 250..257 (without the final dot)
+        total = rng.choice([250, 252, 253, 254, 255, 256, 257])
+        ls = []
+        rem = total
+        while rem > 0:
+            n = min(rem, rng.choice([63, 63, 62, 30, 1]))
+            if rem - n == 1:
+                n = rem if rem <= 63 else n - 1
+            ls.append(rand_label(rng, max(1, n)))
+            rem -= n + 1
+        s = b".".join(ls)
+        tag = "long"
+    elif k < 0.55:
+        ls = [rand_label(rng, rng.choice([62, 63, 64, 65])) for _ in range(rng.choice([1, 2]))]
+        s = b".".join(ls)
+        tag = "labellen"
+    elif k < 0.70:
+        ls = [bytearray(small_label(rng)) for _ in range(rng.choice([1, 2, 3]))]
+        l = rng.choice(ls)
+        i = rng.choice([0, len(l) - 1, rng.randrange(len(l))])
+        l[i] = rng.choice(BOUNDARY_BYTES + [0x2d, 0x2d])
+        s = b".".join(bytes(x) for x in ls)
+        tag = "badchar"
+    elif k < 0.80:
+        s = rng.choice([b"", b".", b"..", b".a", b"a..b", b"a.b..", b"-", b"a.-", b"-.a", b"a-.b", b"_", b"a_b", b"_a._b", b"a. b", b"a.b ", b" "])
+        tag = "shape"
+    elif k < 0.88:
+        s = "".join(rng.choice(["a", "é", "ü", "‼", "b.", "c"]) for _ in range(rng.randrange(1, 6))).encode()
+        tag = "unicode"
+    else:
+        s = bytes(rng.choice(LABEL_CHARS + b"....") for _ in range(rng.randrange(0, 12)))
+        tag = "random"
+    if rng.random() < 0.35 and not s.endswith(b"."):
+        s += b"."
+        tag += "+dot"
+    return s, tag
+
+
+def recase(rng, s):
+    return bytes((c ^ 0x20) if (65 <= c <= 90 or 97 <= c <= 122) and rng.random() < 0.5 else c for c in s)
